@@ -167,7 +167,10 @@ Spline<2, double> reparameterize_spline(
     }();
 
     if (ai == inf) { SMOOTH_VERIF_EVENT("reparam.skip"); }
-    if (ai != inf && std::abs(ai) >= eps && vi2 + 2 * ds * ai < eps) { SMOOTH_VERIF_EVENT("reparam.clamp"); }
+    // both shortcuts of the segment duration below: the clamp of the square root and the linear formula for |ai| < eps
+    if (ai != inf && ((std::abs(ai) >= eps && vi2 + 2 * ds * ai < eps) || (std::abs(ai) < eps && ai != 0))) {
+      SMOOTH_VERIF_EVENT("reparam.clamp");
+    }
 
     if (ai != inf) {
       const double dt = std::abs(ai) < eps ? ds / vi : (-vi + std::sqrt(std::max<double>(eps, vi2 + 2 * ds * ai))) / ai;
